@@ -141,7 +141,8 @@ impl Obs {
 
     fn drain_events(&self) {
         let mut st = self.st.lock().unwrap();
-        if st.dead {
+        // once the power is lost nothing the dying process still says is judged
+        if st.dead || st.disk.as_ref().is_some_and(|d| d.crashed()) {
             return;
         }
         loop {
